@@ -45,6 +45,35 @@ def project_memb(raw, nthreads):
     out.append('.')
     return out
 
+def project_mb(raw, nthreads):
+    """implementation trace -> action lines of the mb-flavor model (Gp/GpMbExec.v): as project_memb, plus N = the fence that ends an outermost
+    rcu_read_lock, and M = every fence of the grace-period leader (local: nobody else's buffer is drained)"""
+    out = ['T ' + ' '.join(str(i) for i in range(nthreads))]
+    insync = {}; await_fence = {}; inlock = {}
+    for p in events(raw):
+        t, k = p[0], p[1]; loc = p[2] if len(p) > 2 else ''
+        if k == 'call' and p[2] == 'sync': insync[t] = 'called'
+        elif k == 'ret' and p[2] == 'sync': insync[t] = None
+        elif k == 'call' and p[2] == 'lock': inlock[t] = (p[3] == '0')
+        elif k == 'ret' and p[2] == 'lock': inlock[t] = False
+        elif k == 'load' and loc == 'gp.ctr+0' and not insync.get(t): out.append('L %s %d' % (t, wd(p[5])[0]))
+        elif k == 'store' and loc == 'rd%s+0' % t:
+            out.append('S %s %d %d' % ((t,) + wd(p[3][2:])))
+            if inlock.get(t): await_fence[t] = True
+        elif k == 'flush' and re.match(r'rd\d+\+0$', loc): out.append('F %s %d %d' % ((t,) + wd(p[3][2:])))
+        elif k == 'mb' and await_fence.get(t): out.append('N %s' % t); await_fence[t] = False
+        elif k == 'lock' and loc == 'gp_lock+0' and insync.get(t): insync[t] = 'leader'
+        elif k == 'xchg' and loc == 'waiters+0' and insync.get(t) == 'leader': out.append('Y')
+        elif k == 'mb' and insync.get(t) in ('leader', 'flipped'): out.append('M')
+        elif k == 'load' and re.match(r'rd\d+\+0$', loc) and insync.get(t) in ('leader', 'flipped'):
+            out.append('C %s %d %d' % ((loc[2:-2],) + wd(p[5])))
+        elif k == 'flush' and loc == 'gp.ctr+0' and insync.get(t) == 'leader':
+            out.append('P %d' % wd(p[3][2:])[0]); insync[t] = 'flipped'
+        elif k == 'unlock' and loc == 'gp_lock+0' and insync.get(t) in ('leader', 'flipped'):
+            out.append('E'); insync[t] = 'done'
+    out.append('.')
+    return out
+
 def timing_oracle(raw):
     """every section whose outermost lock returned before a synchronize_rcu() call must have begun its outermost unlock before
     that call returns"""
